@@ -153,6 +153,9 @@ def run_case(desc):
     if desc["weights"]:
         sw = np.round(rng.rand(*y.shape) * 2, 2)
         sw[rng.rand(*y.shape) < 0.25] = 0.0
+        if multi and (Yid >= 0).any():
+            rows_l = np.flatnonzero((Yid >= 0).any(axis=1))
+            sw[rows_l[int(rng.randint(len(rows_l)))]] = 0.0          # every label of one labelled sample has weight zero
     viol = []
 
     def add(kind, detail):
@@ -165,7 +168,9 @@ def run_case(desc):
     declared = [classes[i] for i in rng.permutation(K)] if (desc["seed"] >> 10) % 3 else list(classes)
     pos = [classes.index(c) for c in declared]                      # declared position -> sorted class index
     cm_declared = None if cm is None else cm[np.ix_(pos, pos)]      # the same costs, written down in declared order
-    clf = factory(declared, ml, cm_declared, int(desc["seed"] % 1000))
+    # (weighted fits of the annotator model use the solver that passes non-finite parameters through to the probabilities)
+    extra_kw = {"solver": "SLSQP"} if (name == "annot_lr" and desc["weights"]) else {}
+    clf = factory(declared, ml, cm_declared, int(desc["seed"] % 1000), **extra_kw)
     ctx = "clf=%s declared classes=%r regime=%s n=%d labelled=%d weights=%s cost=%s" % (name, declared, regime, n, int(lab.sum()), desc["weights"], desc["cost"])
     import inspect
     # feature dtype / layout a caller may well have: single precision, Fortran order
